@@ -1,0 +1,9 @@
+//! Facade for the config (re)load property (C13): the real
+//! `ConfigFile::new` -> `Manager::load` -> `prepare` -> `spawn_internal` path
+//! with recording closures, plus read access to the loader state.
+pub use crate::config::{Config, ConfigFile, Source};
+pub use crate::manager::verif_hooks_c13::{
+    loader_gate_names, pending_gate_names, reset_loader, running_names,
+    spawn_recording, Action,
+};
+pub use crate::manager::Manager;
